@@ -15,6 +15,7 @@
 (*   - enable() by the handler the string is attributed to.                *)
 (***************************************************************************)
 EXTENDS Naturals, Sequences
+CONSTANT Greedy      \* the real scheme is a catch-all (plaintext): it claims every string no disabled-account handler listed before it claims
 
 Stored == {"None", "Empty", "M1", "M2", "M1H", "M2H", "H", "D"}
 Marker(h) == IF h = "unix2" THEN "M2" ELSE "M1"
@@ -28,7 +29,7 @@ HClaims(h, x) ==
 Ident(L, known, x) ==
     IF \E i \in 1..Len(L) : HClaims(L[i], x)
     THEN L[CHOOSE i \in 1..Len(L) : HClaims(L[i], x) /\ \A j \in 1..(i - 1) : ~HClaims(L[j], x)]
-    ELSE IF x = "H" /\ known THEN "real" ELSE "unknown"
+    ELSE IF known /\ (x = "H" \/ (Greedy /\ x # "None")) THEN "real" ELSE "unknown"
 IsDisabled(L, known, x) == Ident(L, known, x) \notin {"real", "unknown"}
 Unknown(L, known, x) == x = "None" \/ Ident(L, known, x) = "unknown"
 
